@@ -251,6 +251,7 @@ template <size_t SZ, size_t AL> struct alignas(AL) Obj
     ~Obj()
     {
         if (!sop_objs.erase(this)) sop_err = "destroyed a dead object";
+        else if (!intact()) sop_err = "object contents changed before its destructor ran";
         sop_dtor_runs++;
         sop_last_dtor = this;
     }
@@ -557,7 +558,9 @@ static void run_op(const std::vector<std::string> &w, const std::string &, out &
             PC->is_ip = k == "ipool";
             if (PC->is_ip)
             {
-                PC->ip.init(PC->zone->p, PC->e * PC->cap, PC->e);
+                if (PC->cap % 2) new (&PC->ip) igris::pool(PC->zone->p, PC->e * PC->cap, PC->e); // pool(zone, size, elsize)
+                else PC->ip.init(PC->zone->p, PC->e * PC->cap, PC->e);
+                if (PC->ip.element_size() != PC->e) o.fail("element_size()");
                 o.result = su(PC->ip.size()) + " " + su(PC->ip.room()) + " " + su(PC->ip.avail());
                 if (PC->ip.size() != PC->cap || PC->ip.room() != PC->cap || PC->ip.avail() != PC->cap) o.fail("fresh pool does not report its capacity");
             }
@@ -1124,6 +1127,173 @@ static void gen_heap_chains(rng &r, int ncases)
     }
 }
 
+// Targeted families (history shapes where an off-by-one in a size test, a wrong predecessor or a lost link shows):
+//  0 a free chunk of an exactly chosen size (k coalesced 8-byte chunks [+ a 64-byte one]: every multiple of 8),
+//    then requests that fit exactly / leave 8, 16, 24, 32 bytes (exact fit, whole chunk, smallest split)
+//  1 realloc growing into the upper neighbour: neighbour exactly fitting, 8 bytes short, 8/16/24/32 bytes spare
+//  2 3-way coalescing: adjacent blocks between guards freed in every order, several free chunks around
+//  3 lowering the break with a free chunk right below the top block and holes further down
+//  4 realloc shrinking next to a free chunk / at the top (the split-off tail merges up / lowers the break)
+//  5 best fit among several candidates (first candidate not the smallest), whole-chunk and split variants
+static void gen_heap_targeted(rng &r, int ncases)
+{
+    static const std::vector<size_t> grow = {1, 64, 65, 128, 129, 192, 193, 256};
+    for (int c = 0; c < ncases; c++)
+    {
+        int fam = c % 6;
+        size_t lim = c % 13 == 12 ? (size_t)r.range(700, 2600) : 0;
+        printf("reset heap %zu\n", lim);
+        HGen g(r, 90);
+        auto free_slot = [&](int slot) {
+            for (size_t i = 0; i < g.live.size(); i++)
+                if (g.live[i] == slot)
+                {
+                    g.f_at(i);
+                    return;
+                }
+        };
+        auto idx_of = [&](int slot) -> size_t {
+            for (size_t i = 0; i < g.live.size(); i++)
+                if (g.live[i] == slot) return i;
+            return 0;
+        };
+        auto shuffled = [&](std::vector<int> v) {
+            for (size_t i = v.size(); i > 1; i--) std::swap(v[i - 1], v[(size_t)r.below(i)]);
+            return v;
+        };
+        // k zero-size blocks (8-byte chunks) with an optional 64-byte block among them: returns their slots
+        auto small_run = [&](int k, bool with64) {
+            std::vector<int> sl;
+            int pos64 = with64 ? (int)r.below((uint64_t)k + 1) : -1;
+            for (int i = 0; i <= k; i++)
+            {
+                if (i == pos64)
+                {
+                    sl.push_back(g.next_slot);
+                    g.m(64);
+                }
+                if (i < k)
+                {
+                    sl.push_back(g.next_slot);
+                    g.m(r.chance(80) ? 0 : 8);
+                }
+            }
+            return sl;
+        };
+        switch (fam)
+        {
+        case 0:
+        {
+            if (r.chance(60)) g.m(pick_size(r));
+            std::vector<int> run = small_run((int)r.range(1, 10), r.chance(40));
+            if (r.chance(85)) g.m(pick_size(r)); // guard above (without it the run ends at the break)
+            for (int sl : shuffled(run)) free_slot(sl);
+            for (int i = 0, n = (int)r.range(1, 4); i < n; i++) g.m(r.pick(grow) - (r.chance(30) ? 1 : 0));
+            break;
+        }
+        case 1:
+        {
+            if (r.chance(50)) g.m(pick_size(r));
+            int a = g.next_slot;
+            g.m(r.chance(50) ? 0 : r.chance(50) ? 64 : 128);
+            std::vector<int> run = small_run((int)r.range(1, 12), r.chance(35));
+            bool guard = r.chance(80);
+            if (guard) g.m(pick_size(r));
+            if (r.chance(30)) g.m(0);
+            for (int sl : shuffled(run)) free_slot(sl);
+            g.rr(idx_of(a), r.pick(grow));
+            if (r.chance(60)) g.rr(idx_of(a), r.pick(grow));
+            if (r.chance(40)) g.m(r.pick(grow));
+            if (r.chance(40)) g.rr(idx_of(a), (size_t)r.below(70));
+            break;
+        }
+        case 2:
+        {
+            int groups = (int)r.range(1, 3);
+            std::vector<std::vector<int>> gs;
+            g.m(pick_size(r));
+            for (int k = 0; k < groups; k++)
+            {
+                std::vector<int> grp;
+                for (int i = 0, n = (int)r.range(3, 4); i < n; i++)
+                {
+                    grp.push_back(g.next_slot);
+                    g.m(pick_size(r));
+                }
+                gs.push_back(grp);
+                g.m(pick_size(r)); // guard between the groups
+            }
+            std::vector<int> all;
+            for (auto &grp : gs)
+                for (int sl : grp) all.push_back(sl);
+            for (int sl : shuffled(all)) free_slot(sl);
+            for (int i = 0; i < 2; i++) g.m(r.pick(grow));
+            break;
+        }
+        case 3:
+        {
+            int n = (int)r.range(4, 9);
+            std::vector<int> sl;
+            for (int i = 0; i < n; i++)
+            {
+                sl.push_back(g.next_slot);
+                g.m(r.chance(50) ? 0 : pick_size(r));
+            }
+            // holes further down, then the block below the top, then the top block
+            for (int i = 0; i + 3 < n; i++)
+                if (r.chance(45)) free_slot(sl[(size_t)i]);
+            if (r.chance(80)) free_slot(sl[(size_t)n - 2]);
+            free_slot(sl[(size_t)n - 1]);
+            if (r.chance(50)) free_slot(sl[(size_t)n - 3]); // now adjacent to the lowered break
+            g.m(r.pick(grow));
+            if (r.chance(50) && !g.live.empty()) g.f_at(g.live.size() - 1);
+            break;
+        }
+        case 4:
+        {
+            int a = g.next_slot;
+            g.m(r.pick(grow) + 64);
+            int b = g.next_slot;
+            g.m(r.chance(50) ? 0 : pick_size(r));
+            int cc = g.next_slot;
+            g.m(r.pick(grow) + 128);
+            if (r.chance(60)) free_slot(b);
+            g.rr(idx_of(a), r.chance(50) ? 0 : (size_t)r.below(70));  // tail merges with the chunk of b (or not)
+            g.rr(idx_of(cc), r.chance(50) ? 0 : (size_t)r.below(130)); // tail is the topmost chunk: break lowered
+            if (r.chance(50)) g.rr(idx_of(cc), r.pick(grow) + 200);    // and up again
+            if (r.chance(50)) g.rr(idx_of(a), r.pick(grow) + 64);      // grow back into its own tail
+            break;
+        }
+        default:
+        {
+            // several free chunks of different sizes in random address order, then requests that are
+            // served from the smallest fitting one (not the first candidate)
+            std::vector<int> holes;
+            int n = (int)r.range(2, 5);
+            for (int i = 0; i < n; i++)
+            {
+                size_t sz = r.pick(grow) + (size_t)r.below(3) * 64;
+                if (r.chance(40))
+                {
+                    std::vector<int> run = small_run((int)r.range(1, 4), true);
+                    for (int sl : run) holes.push_back(sl);
+                }
+                else
+                {
+                    holes.push_back(g.next_slot);
+                    g.m(sz);
+                }
+                g.m(r.chance(50) ? 0 : 64); // guard
+            }
+            for (int sl : shuffled(holes)) free_slot(sl);
+            for (int i = 0, k = (int)r.range(2, 5); i < k; i++) g.m(r.pick(grow));
+            break;
+        }
+        }
+        g.free_all((int)r.below(3));
+    }
+}
+
 // every history of exactly `depth` requests over the size alphabet `al`,
 // followed by the release of whatever is still live (ascending or descending)
 static long gen_heap_exhaustive(const std::vector<size_t> &al, int depth, bool with_realloc, long part, long nparts)
@@ -1443,6 +1613,7 @@ static void gen(rng &r, const std::string &tier)
     // ---- heap: random histories, realloc chains
     gen_heap_random(r, th ? 400 : 60, th ? 300 : 150);
     gen_heap_chains(r, th ? 600 : 120);
+    gen_heap_targeted(r, th ? 3000 : 360);
     gen_heap_brim(r, th ? 360 : 72);
     // the release build (NDEBUG): histories with up to 400 live blocks
     gen_heap_random(r, th ? 40 : 8, th ? 1500 : 600, true);
